@@ -300,6 +300,12 @@ func genPlan(maxSteps int) func(rt *rapid.T) Plan {
 				p.PeerSS[1] = 0
 			}
 		}
+		// Starved server: the client grants (almost) no stream window, so whatever the handlers write stays queued
+		// and finished streams stay registered.
+		starved := chance(rt, "starved", 20)
+		if starved {
+			p.PeerSS = []int64{4, pick(rt, "tiny_iws", int64(0), 0, 1, 10)}
+		}
 		n := intn(rt, "nsteps", 10, maxSteps)
 		fatalFrom := n * intn(rt, "fatal_from_pct", 60, 95) / 100
 		seq := 0
@@ -313,12 +319,21 @@ func genPlan(maxSteps int) func(rt *rapid.T) Plan {
 				seq++
 			case w < 60:
 				st = Step{K: kFinish, S: intn(rt, "s", 0, 7), F: intn(rt, "fv", 0, 2), V: pick(rt, "code", int64(0), 0, 2, 14)}
+				if starved {
+					st.F = 2
+				}
 			case w < 68:
 				st = Step{K: kRST, M: pick(rt, "rm", mLive, mLive, mSent, mSent, mIdle), S: intn(rt, "s", 0, 30), V: pick(rt, "rc", int64(8), 0, 2, 5, 7, 0xffffffff)}
 			case w < 78:
 				st = Step{K: kData, M: pick(rt, "dm", mLive, mLive, mLive, mSent, mSent, mIdle, mEven), S: intn(rt, "s", 0, 30), N: pick(rt, "dn", 0, 5, 100, 5000, 16379, 40000, 70000), ES: chance(rt, "es", 40)}
 				if chance(rt, "dpad", 15) {
 					st.Pad = intn(rt, "pad", 1, 256)
+				}
+				if chance(rt, "ddone", 25) { // DATA (often empty, END_STREAM, repeated) on a stream the application already finished
+					st.M, st.ES, st.F, st.N = mDone, chance(rt, "es2", 85), pick(rt, "rep", 2, 1, 3), pick(rt, "dn2", 0, 0, 5)
+					if chance(rt, "empty", 60) {
+						st.Var = "empty"
+					}
 				}
 				if fatalOK && chance(rt, "dfatal", 15) {
 					st.Var, st.M, st.Fatal = "stream_zero", mZero, true
